@@ -189,6 +189,10 @@ func (s *Solver) readLine() (string, bool) {
 
 // Check runs (check-sat) on the current assertion stack.
 func (s *Solver) Check() string {
+	if s.usesFP() {
+		r, _ := s.oneShot(nil)
+		return r
+	}
 	t0 := time.Now()
 	s.Queries++
 	s.send("(check-sat)")
@@ -265,6 +269,21 @@ func (s *Solver) CheckModel(vars []*Term, extra ...*Term) (string, map[string]ui
 	for _, v := range vars {
 		s.define(v)
 	}
+	if s.usesFP() {
+		r, vals := s.oneShot(vars)
+		var m map[string]uint64
+		if r == "sat" {
+			m = map[string]uint64{}
+			for i, v := range vars {
+				m[v.name] = vals[i]
+			}
+		}
+		if len(s.Errors) > nerr {
+			r = "unknown"
+		}
+		s.Pop()
+		return r, m
+	}
 	r := s.Check()
 	if len(s.Errors) > nerr {
 		r = "unknown"
@@ -286,6 +305,13 @@ func (s *Solver) EvalTerm(t *Term) (uint64, bool) {
 	s.Push()
 	defer s.Pop()
 	s.define(t)
+	if s.usesFP() {
+		r, vals := s.oneShot([]*Term{t})
+		if r != "sat" || len(vals) != 1 || len(s.Errors) > nerr {
+			return 0, false
+		}
+		return vals[0], true
+	}
 	if r := s.Check(); r != "sat" || len(s.Errors) > nerr {
 		return 0, false
 	}
@@ -489,4 +515,138 @@ func sexpValue(x *sexp) (uint64, bool) {
 		return v, err == nil
 	}
 	return 0, false
+}
+
+// ---- one-shot mode for floating point ------------------------------------------------
+//
+// z3's incremental core is far slower on IEEE floats than its one-shot
+// strategy (the standalone DistanceTo queries finish in <1 s but time out
+// incrementally), so a problem that mentions a float is replayed, flattened,
+// into a fresh solver process.
+
+func termHasFP(t *Term, seen map[int]bool) bool {
+	if seen[t.id] {
+		return false
+	}
+	seen[t.id] = true
+	if t.sort.K == SFP {
+		return true
+	}
+	for _, a := range t.args {
+		if termHasFP(a, seen) {
+			return true
+		}
+	}
+	return false
+}
+
+func (s *Solver) usesFP() bool {
+	if s.kind != "z3" && s.kind != "z3new" {
+		return false
+	}
+	seen := map[int]bool{}
+	for _, lvl := range s.stack {
+		for _, t := range lvl {
+			if termHasFP(t, seen) {
+				return true
+			}
+		}
+	}
+	return false
+}
+
+// oneShot solves the current assertion stack in a fresh process and, if sat,
+// returns the values of the given terms.
+func (s *Solver) oneShot(vals []*Term) (string, []uint64) {
+	t0 := time.Now()
+	s.Queries++
+	var sb strings.Builder
+	sb.WriteString("(set-option :produce-models true)\n")
+	defined := map[int]bool{}
+	var def func(t *Term)
+	def = func(t *Term) {
+		if t.isConst || defined[t.id] {
+			return
+		}
+		defined[t.id] = true
+		for _, a := range t.args {
+			def(a)
+		}
+		if t.op == "var" {
+			fmt.Fprintf(&sb, "(declare-const %s %s)\n", quoteSym(t.name), t.sort)
+		} else {
+			fmt.Fprintf(&sb, "(define-fun t%d () %s %s)\n", t.id, t.sort, defText(t))
+		}
+	}
+	for _, lvl := range s.stack {
+		for _, t := range lvl {
+			def(t)
+			fmt.Fprintf(&sb, "(assert %s)\n", ref(t))
+		}
+	}
+	for _, v := range vals {
+		def(v)
+	}
+	sb.WriteString("(check-sat)\n")
+	if len(vals) > 0 {
+		sb.WriteString("(get-value (")
+		for _, v := range vals {
+			sb.WriteString(ref(v) + " ")
+		}
+		sb.WriteString("))\n")
+	}
+	if s.logf != nil {
+		fmt.Fprintf(s.logf, "; ---- one-shot ----\n%s; ---- end ----\n", sb.String())
+	}
+	bin := "/usr/bin/z3"
+	if s.kind == "z3new" {
+		bin = "z3-new"
+	}
+	secs := int(s.timeout/time.Second) + 1
+	cmd := exec.Command(bin, "-in", "-T:"+strconv.Itoa(secs))
+	cmd.Stdin = strings.NewReader(sb.String())
+	out, _ := cmd.Output()
+	s.Time += time.Since(t0)
+	text := string(out)
+	lines := strings.SplitN(strings.TrimSpace(text), "\n", 2)
+	res := "unknown"
+	if len(lines) > 0 {
+		switch strings.TrimSpace(lines[0]) {
+		case "sat":
+			res = "sat"
+		case "unsat":
+			res = "unsat"
+		}
+	}
+	if strings.Contains(text, "(error") && res != "unsat" {
+		// errors after an unsat verdict are only the refused get-value
+		s.Errors = append(s.Errors, "one-shot: "+strings.TrimSpace(text))
+		res = "unknown"
+	}
+	if res == "unknown" {
+		s.Unknowns++
+		return res, nil
+	}
+	if res == "sat" && len(vals) > 0 {
+		if len(lines) < 2 {
+			return "unknown", nil
+		}
+		sx := parseSexp(lines[1])
+		if sx == nil || len(sx.list) != len(vals) {
+			return "unknown", nil
+		}
+		outv := make([]uint64, len(vals))
+		for i, pair := range sx.list {
+			if len(pair.list) != 2 {
+				return "unknown", nil
+			}
+			v, ok := sexpValue(pair.list[1])
+			if !ok {
+				return "unknown", nil
+			}
+			outv[i] = v
+		}
+		return res, outv
+	}
+	return res, nil
 }
